@@ -103,6 +103,179 @@ Proof. repeat split. Qed.
 Example C01_pin_missing_args : err_value_missing_arguments = 203%Z /\ err_value_missing_arguments_ok = true.
 Proof. repeat split. Qed.
 
+(* ================================================================================================
+   The same over RAW DATAGRAMS: the codec model (C15: model/Krpc.v) composed with the server model.
+   proofs/ServerBytes.v defines what processPacket does before it takes the lock:
+     pre_check b      = len(b) >= 2 && b[0] == 'd'
+     decoded b        = Some m  when pre_check b and bencode.Unmarshal(b, &msg) returns nil or
+                                ErrUnusedTrailingBytes (decode_msg_fixed b = DOk m / DOkTrailing m n),
+                        None    otherwise (the datagram is dropped)
+     packet_of_bytes src b = EPacket src (len b) (decoded b)
+   The hypothesis `wf_event` of C01_total (ids of 20 bytes in whatever was decoded) is no longer an
+   assumption about the decoder: it is proved of the decoder, for every byte string of any length.
+   ================================================================================================ *)
+From Dht Require Import Krpc ServerBytes.
+
+Section C01Bytes.
+  Variable Store : Type.
+  Variable w_put : Store -> witem -> Z -> Store * put_result.
+  Variable w_get : Store -> bytes -> Z -> Store * get_result.
+  Variable sha1 : bytes -> bytes.
+  Variable id_secure : N -> bytes -> bool.
+  Variable cfg : config.
+
+  Notation step := (step Store w_put w_get sha1 id_secure cfg).
+  Notation run := (run Store w_put w_get sha1 id_secure cfg).
+  Notation run_trace := (run_trace Store w_put w_get sha1 id_secure cfg).
+  Notation reachable := (reachable Store w_put w_get sha1 id_secure cfg).
+
+  (* the pre-check is the one of the source; the decoder's output is well-formed; so every datagram
+     from an address the socket can report is a well-formed event *)
+  Theorem C01_pre_check_spec b :
+    pre_check b = true <-> (2 <= List.length b)%nat /\ nth_error b 0 = Some "d"%byte.
+  Proof. exact (pre_check_spec b). Qed.
+
+  Theorem C01_decoded_wf b m :
+    decode_msg_fixed b = DOk m \/ (exists n, decode_msg_fixed b = DOkTrailing m n) -> wf_msg_in m.
+  Proof. exact (decoded_wf_msg_in b m). Qed.
+
+  Theorem C01_datagram_wf src b : wf_addr src -> wf_event (packet_of_bytes src b).
+  Proof. exact (packet_of_bytes_wf src b). Qed.
+
+  (* ---- no datagram content whatsoever — arbitrary bytes, truncated or malformed bencode, any
+          subset of fields, any length — reaches the panic outcome, from any reachable state, in
+          every configuration, whatever the implementation chooses where Go leaves it open ---- *)
+  Theorem C01_total_bytes s src :
+    wf_cfg cfg -> wf_store_get Store w_get -> reachable s -> wf_addr src ->
+    forall (b : bytes) ch, step s (packet_of_bytes src b) ch <> SRPanic Store.
+  Proof. exact (ServerBytes.C01_total_bytes Store w_put w_get sha1 id_secure cfg s src). Qed.
+
+  (* ---- histories of datagrams.  [run_trace] is [run] together with the reason it stopped: the
+          state after the longest prefix whose steps were all accepted, that prefix's outputs, and the
+          result of the first step that was not accepted (None when all were).
+          (1) every state reached after an accepted prefix is reachable (so C01_total_bytes applies
+              to it again);
+          (2) the run goes through, or stops at a choice the model rejects — `stop` being exactly the
+              result of the step at that datagram — and never at a panic; in particular
+              `run = None` happens only because of a rejected choice. ---- *)
+  Theorem C01_history_bytes s (dgs : list datagram) :
+    wf_cfg cfg -> wf_store_get Store w_get -> reachable s -> Forall wf_datagram dgs ->
+    (forall k s1 outs1, run s (firstn k (dg_events dgs)) = Some (s1, outs1) -> reachable s1) /\
+    (exists s1 outs1 stop,
+       run_trace s (dg_events dgs) = (s1, outs1, stop) /\ reachable s1 /\
+       run s (firstn (List.length outs1) (dg_events dgs)) = Some (s1, outs1) /\
+       (stop = None \/ stop = Some (SRBadChoice Store)) /\ stop <> Some (SRPanic Store) /\
+       (stop = None <-> run s (dg_events dgs) = Some (s1, outs1)) /\
+       (stop = Some (SRBadChoice Store) <-> run s (dg_events dgs) = None) /\
+       (forall r, stop = Some r ->
+          exists src b ch, nth_error dgs (List.length outs1) = Some (src, b, ch) /\
+                           step s1 (packet_of_bytes src b) ch = r)).
+  Proof. exact (ServerBytes.C01_history_bytes Store w_put w_get sha1 id_secure cfg s dgs). Qed.
+
+  (* what [run_trace] computes, for any list of events *)
+  Theorem C01_run_trace_spec evs s s1 outs1 stop :
+    run_trace s evs = (s1, outs1, stop) ->
+    run s (firstn (List.length outs1) evs) = Some (s1, outs1) /\
+    match stop with
+    | None => List.length outs1 = List.length evs /\ run s evs = Some (s1, outs1)
+    | Some r => (exists e ch, nth_error evs (List.length outs1) = Some (e, ch) /\ step s1 e ch = r) /\
+                (forall s' o, r <> SR Store s' o) /\ run s evs = None
+    end.
+  Proof. exact (run_trace_spec Store w_put w_get sha1 id_secure cfg evs s s1 outs1 stop). Qed.
+
+  (* datagrams interleaved with every other kind of well-formed event (AddNode, clock, query start
+     and end, failed ping, blocklist update, Close) *)
+  Theorem C01_history_mixed s (ins : list (input * choice)) :
+    wf_cfg cfg -> wf_store_get Store w_get -> reachable s -> Forall (fun ic => wf_input (fst ic)) ins ->
+    (forall k s1 outs1, run s (firstn k (in_events ins)) = Some (s1, outs1) -> reachable s1) /\
+    (forall s1 outs1 stop, run_trace s (in_events ins) = (s1, outs1, stop) ->
+       reachable s1 /\ (stop = None \/ stop = Some (SRBadChoice Store)) /\
+       (stop = Some (SRBadChoice Store) <-> run s (in_events ins) = None)).
+  Proof. exact (ServerBytes.C01_history_mixed Store w_put w_get sha1 id_secure cfg s ins). Qed.
+
+  (* ---- a datagram that fills the whole read buffer, or comes from port 0, leaves the state
+          unchanged and produces nothing, whatever its content, in ANY state ---- *)
+  Theorem C01_oversize_and_port0_bytes s src (b : bytes) ch :
+    N.of_nat (List.length b) = Z.to_N udp_buf \/ port src = 0%N ->
+    step s (packet_of_bytes src b) ch = SR Store s [].
+  Proof. exact (ServerBytes.C01_oversize_and_port0_bytes Store w_put w_get sha1 id_secure cfg s src b ch). Qed.
+End C01Bytes.
+
+(* ---- non-vacuity on concrete datagrams, computed by the kernel (parameters of ServerExamples.v,
+        state s0: populated table, two queries in flight) ---- *)
+Import String.
+Definition C01_src : addr := mkAddr ip4 99.
+(* the 34-byte crash datagram of the property text (defect D1, repaired in the model) *)
+Definition C01_dg_announce : bytes := ascii_bytes "d1:q13:announce_peer1:t2:aa1:y1:qe".
+Definition C01_dg_ping_trailing : bytes := ascii_bytes "d1:q4:ping1:t2:aa1:y1:qeXYZ".
+Definition C01_dg_list : bytes := ascii_bytes "li1ee".
+(* decodes (singleton-list coercion of the bencode library) but is not a dictionary: pre-check *)
+Definition C01_dg_listed_ping : bytes := ascii_bytes "ld1:q4:ping1:t2:aa1:y1:qee".
+Definition C01_dg_truncated : bytes := ascii_bytes "d1:q4:ping1:t2:aa1:y1:q".
+Definition C01_dg_garbage : bytes := [xff; x00; x64; x31].
+(* 65536 bytes beginning with a valid query; one byte less is answered *)
+Definition C01_dg_oversize : bytes := (C01_dg_announce ++ repeat x00 (N.to_nat 65502))%list.
+Definition C01_dg_maxsize : bytes := (C01_dg_announce ++ repeat x00 (N.to_nat 65501))%list.
+
+Definition C01_answer (r : step_result unit) : option (addr * send_kind * option Z * bytes) :=
+  match r with
+  | Server.SR _ _ [ESend d m k] => Some (d, k, option_map e_code (m_e m), m_t m)
+  | _ => None
+  end.
+
+Example C01_bytes_announce_answered_203 :
+  List.length C01_dg_announce = 34%nat /\ wf_datagram (C01_src, C01_dg_announce, no_choice) /\
+  decode_msg_fixed C01_dg_announce = DOk (mkMsg s_announce_peer None (ascii_bytes "aa") s_q None None empty_na false []) /\
+  C01_answer (step0 s0 (packet_of_bytes C01_src C01_dg_announce) no_choice)
+  = Some (C01_src, SError, Some 203%Z, ascii_bytes "aa").
+Proof. split; [reflexivity|]. split; [left; reflexivity|]. vm_compute. split; reflexivity. Qed.
+
+Example C01_bytes_trailing_used :
+  decode_msg_fixed C01_dg_ping_trailing
+  = DOkTrailing (mkMsg s_ping None (ascii_bytes "aa") s_q None None empty_na false []) 3 /\
+  match step0 s0 (packet_of_bytes C01_src C01_dg_ping_trailing) no_choice with
+  | Server.SR _ _ out => out
+  | _ => []
+  end = [ESend C01_src (reply_msg cfg0 C01_src (ascii_bytes "aa") empty_return) SReply].
+Proof. vm_compute. split; reflexivity. Qed.
+
+Example C01_bytes_dropped :
+  (pre_check C01_dg_list = false /\ decoded C01_dg_list = None) /\
+  (pre_check C01_dg_listed_ping = false /\ (exists m, decode_msg_fixed C01_dg_listed_ping = DOk m) /\
+   decoded C01_dg_listed_ping = None) /\
+  (pre_check C01_dg_truncated = true /\ decode_msg_fixed C01_dg_truncated = DReject) /\
+  decoded C01_dg_garbage = None /\ decoded [] = None /\
+  forallb (fun b => match step0 s0 (packet_of_bytes C01_src b) no_choice with
+                    | Server.SR _ s' [] => true      (* and s' = s0: next conjunct *)
+                    | _ => false
+                    end)
+          [C01_dg_list; C01_dg_listed_ping; C01_dg_truncated; C01_dg_garbage; []] = true /\
+  step0 s0 (packet_of_bytes C01_src C01_dg_list) no_choice = SR unit s0 [] /\
+  step0 s0 (packet_of_bytes C01_src C01_dg_truncated) no_choice = SR unit s0 [].
+Proof. vm_compute. repeat split; try reflexivity. eexists; reflexivity. Qed.
+
+Example C01_bytes_oversize_port0 :
+  N.of_nat (List.length C01_dg_oversize) = Z.to_N udp_buf /\
+  step0 s0 (packet_of_bytes C01_src C01_dg_oversize) no_choice = SR unit s0 [] /\
+  step0 s0 (packet_of_bytes (mkAddr ip4 0) C01_dg_announce) no_choice = SR unit s0 [] /\
+  C01_answer (step0 s0 (packet_of_bytes C01_src C01_dg_maxsize) no_choice)
+  = Some (C01_src, SError, Some 203%Z, ascii_bytes "aa").
+Proof. vm_compute. repeat split; reflexivity. Qed.
+
+(* a history: the six datagrams in a row from s0 — two answered, four dropped, none stops the run *)
+Example C01_bytes_history :
+  let dgs := map (fun b => (C01_src, b, no_choice))
+                 [C01_dg_announce; C01_dg_list; C01_dg_ping_trailing; C01_dg_truncated; C01_dg_garbage; C01_dg_oversize] in
+  Forall wf_datagram dgs /\
+  match run_trace unit wp0 wg0 sha0 sec0 cfg0 s0 (dg_events dgs) with
+  | (_, outs, stop) => (map (@List.length effect) outs, stop)
+  end = ([1; 0; 1; 0; 0; 0]%nat, None).
+Proof.
+  split.
+  - cbv zeta. cbn [map]. repeat (apply Forall_cons; [left; reflexivity|]). apply Forall_nil.
+  - vm_compute. reflexivity.
+Qed.
+
 Print Assumptions C01_total.
 Print Assumptions C01_total_inv.
 Print Assumptions C01_handlers_total.
@@ -110,3 +283,16 @@ Print Assumptions C01_run_reachable.
 Print Assumptions C01_still_serves.
 Print Assumptions C01_still_serves_reachable.
 Print Assumptions C01_nonvacuous.
+Print Assumptions C01_pre_check_spec.
+Print Assumptions C01_decoded_wf.
+Print Assumptions C01_datagram_wf.
+Print Assumptions C01_total_bytes.
+Print Assumptions C01_history_bytes.
+Print Assumptions C01_run_trace_spec.
+Print Assumptions C01_history_mixed.
+Print Assumptions C01_oversize_and_port0_bytes.
+Print Assumptions C01_bytes_announce_answered_203.
+Print Assumptions C01_bytes_trailing_used.
+Print Assumptions C01_bytes_dropped.
+Print Assumptions C01_bytes_oversize_port0.
+Print Assumptions C01_bytes_history.
